@@ -53,6 +53,18 @@ pub fn pool() -> Vec<MV> {
         s("null"),
         s("10"),
         s("9"),
+        // records whose key sets differ while the values under the unmatched keys are null
+        r(vec![("a", MV::Null)]),
+        r(vec![("b", MV::Null)]),
+        r(vec![("b", num(1.0))]),
+        r(vec![("a", MV::Null), ("c", num(1.0))]),
+        r(vec![("b", MV::Null), ("c", num(1.0))]),
+        // lists that are decided at an early position and hold incomparable values later
+        l(vec![num(1.0), s("a")]),
+        l(vec![num(2.0), num(5.0)]),
+        l(vec![num(1.0), s("a"), MV::Bool(true)]),
+        l(vec![num(2.0), MV::Null, l(vec![])]),
+        l(vec![num(1.0), r(vec![("a", num(1.0))])]),
         l(vec![]),
         l(vec![num(1.0)]),
         l(vec![num(1.0), num(2.0)]),
